@@ -26,7 +26,7 @@ RULE = ("case = delete: target {Array with metadata, RaggedArray, plain dir, fil
 ASSUMPTIONS = ["a symlink whose name collides with a Darr file name counts as foreign content",
                "Darr's own regular files may be gone after a delete that raises OSError because of foreign entries (the property allows it)"]
 EXHAUSTIVE = None
-FKINDS = ['file', 'dir', 'symfile', 'symdir', 'dangling', 'collide-symlink', 'collide-dir', 'casevariant']
+FKINDS = ['file', 'dir', 'symfile', 'symdir', 'dangling', 'collide-symlink', 'collide-dir', 'casevariant', 'nearname']
 CREATORS = ['asarray', 'create_array', 'asraggedarray', 'create_raggedarray', 'Array.copy', 'RaggedArray.copy', 'archive']
 FAILS = [None, 'iter-raises-later', 'bad-later-item']
 OCCUPANTS = ['none', 'array', 'array-large', 'ragged', 'file', 'dir']
@@ -65,7 +65,12 @@ def place_foreign(base, outside, f, i, out):
     out.cls('foreign:' + k)
     name = {'file': f'notes{i}.txt', 'dir': f'extra{i}', 'symfile': f'lnk{i}', 'symdir': f'lnkd{i}', 'dangling': f'dang{i}',
             'casevariant': ['Readme.txt', 'Metadata.JSON', 'ARRAYVALUES.BIN', 'arraydescription.JSON'][(i + f['n']) % 4]}.get(k)
-    if k in ('file', 'casevariant'):
+    if k == 'nearname':
+        # user files whose names are derived from Darr's own: backup / temporary / lock / hidden variants
+        base_ = DARRNAMES[(i + f['n']) % 4]
+        name = [base_ + '.tmp', base_ + '~', base_ + '.bak', '.' + base_ + '.swp', base_ + '.lock', base_ + '.new', base_ + '.old', 'tmp' + base_,
+                base_ + '.part', '.' + base_][(i * 3 + f['n'] // 4) % 10]
+    if k in ('file', 'casevariant', 'nearname'):
         with open(os.path.join(base, name), 'wb') as fh:
             fh.write(b'user data %d' % i)
     elif k == 'dir':
@@ -414,6 +419,11 @@ def grid():
                        'foreign': [{'kind': fk, 'where': where, 'n': 0}] if fk else []}
                 if not fk:
                     break
+    # every name derived from one of Darr's own (x.tmp, x~, x.bak, .x.swp, x.lock, x.new, x.old, tmpx, x.part, .x) next to every creator
+    for func, occ, n in itertools.product(CREATORS, ['array', 'ragged'], range(40)):
+        for where in (['top'] if occ != 'ragged' else ['top', 'values', 'indices']):
+            yield {'fam': 'create', 'func': func, 'overwrite': True, 'occupant': occ, 'meta': True, 'newmeta': n % 2 == 0,
+                   'foreign': [{'kind': 'nearname', 'where': where, 'n': n}]}
     for func, occ, fail in itertools.product(['asarray', 'asraggedarray'], ['array', 'ragged', 'dir'], FAILS[1:]):
         for fk in FKINDS:
             for where in (['top'] if occ != 'ragged' else ['top', 'values', 'indices']):
